@@ -98,7 +98,7 @@ theorem InvW_leave {s : St} {i : Nat} {e : Entry} {w : WCtx} (h : InvW s) (hi : 
   have hc := h.cnt
   omega
 
-theorem InvW_wTop {s s' : St} {i : Nat} (h : InvW s) (hs : wTop s i = some s') : InvW s' := by
+theorem InvW_wTop {P : Params} {s s' : St} {i o0 : Nat} (h : InvW s) (hs : wTop P s i o0 = some s') : InvW s' := by
   unfold wTop at hs
   split at hs; · cases hs
   rename_i e hi
@@ -107,21 +107,24 @@ theorem InvW_wTop {s s' : St} {i : Nat} (h : InvW s) (hs : wTop s i = some s') :
   have hE := h.ew e (mem_of_getElem? hi)
   split at hs
   · rename_i hg
-    split at hs <;> cases hs
+    split at hs
     · rename_i hst
+      cases hs
       refine InvW_setW h hi hw (EW_of_w ?_ ?_ ?_ ?_)
       · simp [sleep]
       · simp [sleep]
       · intro _; exact Or.inr (hE.stopF w hw hst)
       · simp [sleep, hg.1]
     · rename_i hst
+      cases hs
       refine InvW_setW h hi hw (EW_of_w ?_ ?_ ?_ ?_)
       · simpa [sleep] using hE.exitEn w hw
       · simpa [sleep] using hE.stopF w hw
       · simpa [sleep] using hE.idleT w hw
       · simp [sleep, hg.1]
-    · rename_i hst; exact InvW_leave h hi hw hst
+    · rename_i hst; cases hs; exact InvW_leave h hi hw hst
     · rename_i h1 h2 h3
+      split at hs <;> cases hs
       refine InvW_setW h hi hw (EW_of_w ?_ ?_ ?_ ?_)
       · simpa [awake] using hE.exitEn w hw
       · simpa [awake] using hE.stopF w hw
@@ -631,7 +634,7 @@ theorem InvW_step {P : Params} {s s' : St} {e : Ev} (h : InvW s) (hA : InvA P s)
   | mExitOne i => exact InvW_mExitOne h hs
   | mExitIdle => exact InvW_mExitIdle h hs
   | mJoin => exact InvW_mJoin hs
-  | wTop i => exact InvW_wTop h hs
+  | wTop i o0 => exact InvW_wTop h hs
   | wEnc i full newOut => exact InvW_wEnc h hs
   | wEncErr i r => exact InvW_wEncErr h hs
   | wFb i => exact InvW_wFb h hs
